@@ -139,5 +139,8 @@ Fixpoint gen_bytes_aux (n : nat) (x : N) : bytes :=
   end.
 Definition gen_bytes (seed : N) (n : nat) : bytes := gen_bytes_aux n seed.
 
+(* a slice of a long generated string (the harness names damaged copies of a payload by their intact segments) *)
+Definition seg (g : bytes) (off len : nat) : bytes := firstn len (skipn off g).
+
 (* long byte strings are written by the harness as a list of short hex literals *)
 Definition hexs (l : list string) : bytes := flat_map hex l.
